@@ -7,6 +7,7 @@ import Bita.Proofs.CloneNoJunk
 import Bita.Proofs.TryInit
 import Bita.Proofs.ReaderEnv
 import Bita.Proofs.StepOrder
+import Bita.Proofs.OptionsCompose
 
 namespace Bita.Props.C04
 open Bita Bita.Spec
@@ -159,5 +160,42 @@ theorem clone_steps_as_modelled :
 every run; F15 repair): what reaches the comparison is the value that was typed, not its first
 64 bytes. -/
 theorem pin_length_checked_fact : Gen.pinLengthChecked = true := by decide
+
+
+/-! ### The `--verify-header` option from its text (src/cli.rs `parse_hash_sum`, src/string_utils.rs
+`hex_str_to_vec`, modelled in `Bita.Model.Options`, tied by the in-process suite `l1 opts`) -/
+
+/-- **C04 T3 from the text.**  A clone that gets past the pin with the bytes the option text parsed
+to was given a text that denotes, pair by pair, exactly the archive's header checksum: no
+abbreviation, no extension, nothing dropped by the parser (F6 and F15 violated this sentence). -/
+theorem verify_header_text_gate (H : Bytes → Bytes) (decomp : Nat → Bytes → Nat → Option Bytes) (features : List Nat)
+    (readAt : Nat → Nat → Option Bytes) (readChunks : List (Nat × Nat) → List (Option Bytes))
+    (opts : CloneOpts) (prior : Bytes) (seeds : List Bytes) (a : Archive) (text pin : Bytes)
+    (hinit : tryInit H features readAt = .ok a)
+    (hparse : Options.parseHashSum text = .ok pin) (hp : opts.headerPin = some pin)
+    (hok : (Clone.run H decomp features readAt readChunks opts prior seeds).result = .ok) :
+    pin = a.headerChecksum ∧ 2 * a.headerChecksum.length = (Proofs.padded text).length ∧
+    ∀ i (hi : i < pin.length), ∃ x y, (Proofs.padded text)[2 * i]? = some x ∧
+      (Proofs.padded text)[2 * i + 1]? = some y ∧ Options.parseHexPair x y = some pin[i] :=
+  Proofs.verify_header_text_gate H decomp features readAt readChunks opts prior seeds a text pin hinit hparse hp hok
+
+/-- ... and the other direction: the hexadecimal text of a checksum (what `bita info` prints) is
+accepted and parses to that checksum, so a correct pin is never refused by the parser. -/
+theorem verify_header_hex_accepted (b : Bytes) (h : b.length ≤ Gen.hashMaxLen) :
+    Options.parseHashSum (Proofs.hexText b) = .ok b :=
+  Proofs.parseHashSum_hexText b h
+
+/-- What one pair of characters of the text can denote (two hex digits of either case, or `+` and
+one hex digit - `u8::from_str_radix` takes a sign). -/
+theorem verify_header_pair_denotes (a b v : UInt8) (h : Options.parseHexPair a b = some v) :
+    (a = 43 ∧ ∃ y, Options.hexDigitVal b = some y ∧ v.toNat = y) ∨
+    (∃ x y, Options.hexDigitVal a = some x ∧ Options.hexDigitVal b = some y ∧ v.toNat = 16 * x + y) :=
+  Proofs.parseHexPair_denotes a b v h
+
+-- non-vacuity: an odd-length text with mixed case and a signed pair; an over-long text; a text that
+-- is not ASCII (the slice panics before the parse error of the same pair is reached)
+example : Options.parseHashSum [97, 48, 66, 43, 99] = .ok [0x0a, 0x0b, 0x0c] := by decide +kernel   -- "a0B+c"
+example : Options.parseHashSum (List.replicate 130 48) = .refused := by decide +kernel
+example : Options.parseHashSum [48, 0xC3, 0xA9, 97] = .panic := by decide +kernel
 
 end Bita.Props.C04
